@@ -18,7 +18,15 @@ MANIFEST = {
                   "decode (payload m) = Ok m /\\ |payload m| = size m for ALL flag combinations, 0..3 clocks, time-offset lengths 0..31, "
                   "with/without HRD delays (incl. the time code whose coded length is a multiple of 8, where the final 1 bit overflows "
                   "the exactly-sized buffer and is dropped); C17_passthrough: sei4/sei5/CEA-608/HEVC pic timing return the payload unchanged "
-                  "whenever they return a message.",
+                  "whenever they return a message. ANY message value, however obtained (coq/c17/C17HistModel.v: a typed value is its exported "
+                  "field record; histories = build | decode, then any steps SEdit f (ANY function on the record) | SCopy | SRedecode): "
+                  "C17_payload_depends_on_fields (equal final field records -> equal Payload()/Size()/written NAL unit/decode result, whatever "
+                  "the histories; definitional in the model, it is the statement the H-line correspondence ties to the code), "
+                  "C17_history_roundtrip (the final value of any history, if canonical: decode(payload) = itself, |payload| = Size(), "
+                  "ExtractSEIData(WriteSEIMessages [m]) = [(type, payload)]), C17_canonical_history (canonical-preserving edits: every "
+                  "intermediate value canonical, re-decodes are no-ops), C17_typed_in_nalu (all four typed messages between arbitrary messages). "
+                  "Explored, not proved: that the Go values carry no state besides their exported fields (H lines of the correspondence + the "
+                  "payload-depends-on-history oracle of the search, over generated histories).",
     "level_note": "Every link of the list round trip is proved inside Coq (writer = escape of the plain serialisation, reader over the "
                   "escaped stream, MoreRbspData): nothing of it is left to the correspondence alone. Trusted: Coq kernel, "
                   "extraction (ExtrOcamlBasic), OCaml/Go glue; the model/code correspondence is differential testing. io.Writer failures "
@@ -64,7 +72,8 @@ def run(ctx):
     n = ctx.n(4000, 40000)
     exh = ctx.n(3, 4)
     nt = ctx.n(5000, 200000)
-    rc, cases, e = sh2([exe, "corr", "-seed", str(ctx.seed), "-n", str(n), "-nt", str(nt), "-exh", str(exh)], timeout=3000)
+    nh = ctx.n(6000, 200000)
+    rc, cases, e = sh2([exe, "corr", "-seed", str(ctx.seed), "-n", str(n), "-nt", str(nt), "-nh", str(nh), "-exh", str(exh)], timeout=3000)
     if rc != 0:
         raise common.CheckError("harness corr failed: " + e[-1000:])
     lines = cases.splitlines()
@@ -76,16 +85,23 @@ def run(ctx):
     ctx.cov["evaluations"] += len(lines)
     ctx.cov["distinct_nontrivial"] += distinct
     kinds = {}
+    hist_steps = set()
     for l in lines:
         f = l.split("\t")
         k = f[0] + ":" + (f[5] if f[0] == "L" else f[3] if f[0] in ("X", "T136", "T1", "T137", "T144", "D136", "D137", "D144", "P4", "P5")
                           else f[4] if f[0] == "P1H" else f[5] if f[0] == "D1" else "?")
         if f[0] in ("T136", "T1", "T137", "T144"):
             k += "/decode:" + f[6]
+        if f[0] in ("H136", "H1", "H137", "H144"):   # history lines: origin, number of steps, outcome classes
+            st = f[2].split(">")
+            k = "%s:%s+%d:%s/decode:%s" % (f[0], st[0], min(len([x for x in st[1:] if x != "copy"]), 3), f[4], f[8])
+            hist_steps.update(x.split(".")[-1].split("[")[0] for x in st)
+        if f[0] == "HP":
+            k = "HP:%s:%s:%s" % (f[2], "edited" if ">" in f[3] else "unedited", f[6])
         kinds[k] = kinds.get(k, 0) + 1
     ctx.notes["correspondence"] = {
         "cases": len(lines), "mismatches": len(mism), "distinct_cases": distinct,
-        "exhaustive_payload_len": exh, "kinds_by_outcome": kinds,
+        "exhaustive_payload_len": exh, "kinds_by_outcome": kinds, "history_step_kinds_seen": sorted(hist_steps),
         "input_distribution": "L: message lists written by Go and by the model (bytes compared), then extracted by both: every "
                               "single message with type in {0,3,128,255} and payload over {00,01,03,80,ff} up to the exhaustive length; "
                               "all pairs over boundary types with payloads up to 1 byte; random lists of 0-6 messages, types from "
@@ -97,14 +113,26 @@ def run(ctx):
                               "T136/T1/T137/T144: typed message values (3 in 4 canonical with boundary field values and all flag shapes, 1 in 4 "
                               "non-canonical: too-wide fields, junk in absent fields, 4-6 clocks, wrong clock count, pict_struct > 8, mismatching "
                               "time-offset lengths): Size(), Payload() bytes and decode result compared. D*: the typed decoders on arbitrary short "
-                              "payloads. P4/P5/P1H: pass-through decoders (class ok/err/panic, kind, CEA-608 fields, payload, size)",
+                              "payloads. P4/P5/P1H: pass-through decoders (class ok/err/panic, kind, CEA-608 fields, payload, size). "
+                              "H136/H1/H137/H144: typed message values reached through a HISTORY (tied to C17_payload_depends_on_fields / "
+                              "C17_history_roundtrip): origin build (struct literal) | dec (DecodeXxx on the payload of a generated message) | decmsg "
+                              "(sei.DecodeSEIMessage) | nalu (avc.ParseSEINalu with/without an SPS carrying HRD lengths, hevc.ParseSEINalu; the message "
+                              "between other messages) | decraw (decoder on random bytes); then 0-3 steps: edit of exported fields to other canonical "
+                              "values (scalar fields of a clock in place, hh:mm:ss group, whole clock, new Clocks slice, append/truncate, pict_struct "
+                              "with/without clock-count change, HRD delays through the shared pointer, new CbpDbpDelay, nil<->non-nil, time-offset length "
+                              "of message and clocks), struct copy then edit of the copy, edit then serialise + decode again (any of the decode paths), "
+                              "1 step in 8 an out-of-domain edit; the final EXPORTED field values, Size(), Payload(), the bytes of WriteSEIMessages([m]) and "
+                              "decode(Payload()) are compared with typed_observe of the final field record. HP: pass-through decoders, then edits of the "
+                              "decoded message's exported fields (CEA-608 fields, UUID, ITU-T data, HEVC pic timing fields; in place and on a copy): "
+                              "Payload()/Size() still the decoder input",
     }
     ctx.cov["samples"] += [l[:300] for l in lines[200:203]] + [l[:300] for l in lines[-3:]]
     ctx.log("correspondence: %d cases, %d mismatches" % (len(lines), len(mism)))
     # ---- search: the property itself on the implementation
     ns = ctx.n(5000, 200000)
     nst = ctx.n(20000, 1000000)
-    rc, so, e = sh2([exe, "search", "-seed", str(ctx.seed), "-n", str(ns), "-nt", str(nst), "-exh", str(exh)], timeout=3000)
+    nsh = ctx.n(40000, 2000000)
+    rc, so, e = sh2([exe, "search", "-seed", str(ctx.seed), "-n", str(ns), "-nt", str(nst), "-nh", str(nsh), "-exh", str(exh)], timeout=3000)
     if rc != 0:
         raise common.CheckError("harness search failed: " + e[-1000:])
     fails = []
@@ -133,7 +161,11 @@ def run(ctx):
                        "search: extract(write msgs) = msgs through sei.ExtractSEIData, avc.ParseSEINalu and hevc.ParseSEINalu, written "
                        "bytes = independent naive emulation prevention of the plain serialisation, no forbidden triple; typed: decode(Payload(m)) "
                        "deep-equals m and Size() = len(Payload()) on canonical values, typed messages through WriteSEIMessages + ParseSEINalu, "
-                       "pass-through payload unchanged" % (exh, n))
+                       "pass-through payload unchanged; histories (canonical edits only): for the final value m of a generated history "
+                       "Size() = len(Payload()), a struct literal with m's exported fields has the same Payload()/Size() (payload-depends-on-history), "
+                       "decode(Payload()) has the same exported fields AND the same Payload() bytes, Payload() does not change the fields, "
+                       "WriteSEIMessages([m]) = naive serialisation of the literal, avc/hevc.ParseSEINalu of it returns the same fields; "
+                       "pass-through messages keep payload and size after edits of their exported fields" % (exh, n))
 
 
 def replay(ctx, path):
